@@ -71,6 +71,13 @@ def generate(prop, rng):
     links = ["copy", "hardlink", "symlink"] + (["reflink"] if cfg["reflink"] == "cow" else [])
     if prop == "C10":
         prior, target = rng.sample(range(ntrees), 2)
+        if rng.random() < 0.15 and len(trees[prior]) > 1:
+            # the target is a proper part of the prior tree: a checkout that only deletes
+            keep = sorted(trees[prior])
+            keep = [k for k in keep if rng.random() < 0.6] or keep[:1]
+            if len(keep) == len(trees[prior]):
+                keep = keep[:-1]
+            trees[target] = {k: trees[prior][k] for k in keep}
         l0, l1 = rng.choice(links), rng.choice(links)
         edits = []
         for _ in range(rng.randint(0, 4)):
@@ -612,6 +619,7 @@ def _exec_c10(sc, ctx, env):
     disc = f"{cfg['l0']}->{cfg['l1']}"
     n_before = nsaved[0]
     ev_first = len(seam.events)
+    rec_ok_first = _record_matches(env, path)
     rmf = cfg.get("ws_rm_fault")
     if rmf and prior_t and not single:
         # ONE file that is in the workspace beforehand cannot be removed (immutable / busy)
@@ -640,7 +648,8 @@ def _exec_c10(sc, ctx, env):
             f"missing={sorted(set(want) - set(got))} extra={sorted(set(got) - set(want))} "
             f"wrong={[r for r in want if r in got and got[r] != want[r]]}",
         )
-    _check_record(ctx, env, path, "first", disc, saved=nsaved[0] > n_before, changed=_ws_mutated(seam, ev_first))
+    _check_record(ctx, env, path, "first", disc, saved=nsaved[0] > n_before, changed=_ws_mutated(seam, ev_first),
+                  matched_before=rec_ok_first)
     # second call: nothing to do, no workspace mutation
     n0 = len(seam.events)
     ctx.clock.advance(10**9)
@@ -658,6 +667,7 @@ def _exec_c10(sc, ctx, env):
     ctx.clock.advance(10**9)
     n_before = nsaved[0]
     ev_relink = len(seam.events)
+    rec_ok_relink = _record_matches(env, path)
     try:
         checkout(path, env.w.localfs, obj_for(sc["target"]), env.odb, force=True, relink=True, state=env.state)
     except Exception as exc:  # noqa: BLE001
@@ -685,7 +695,8 @@ def _exec_c10(sc, ctx, env):
         elif l1 == "symlink":
             if not stat.S_ISLNK(lst.st_mode) or os.readlink(fp) != cpath:
                 ctx.violate("relink-wrong-type", f"want-symlink:{disc}", f"{rel}: {os.readlink(fp) if stat.S_ISLNK(lst.st_mode) else 'not a symlink'}")
-    _check_record(ctx, env, path, "relink", disc, saved=nsaved[0] > n_before, changed=_ws_mutated(seam, ev_relink))
+    _check_record(ctx, env, path, "relink", disc, saved=nsaved[0] > n_before, changed=_ws_mutated(seam, ev_relink),
+                  matched_before=rec_ok_relink)
     cache1 = env.cache_objs()
     changed = sorted(o for o in cache0 if cache1.get(o) != cache0[o])
     if changed:
@@ -702,15 +713,28 @@ def _ws_mutated(seam, since):
     return any(e[0] is not None and ((e[3] or "").startswith("ws/") or (e[4] or "").startswith("ws/")) for e in seam.events[since:])
 
 
-def _check_record(ctx, env, path, when, disc, saved=True, changed=False):
+def _record_matches(env, path):
+    if env.state is None:
+        return False
+    try:
+        rec = env.state.links[os.path.relpath(path, env.wsroot)]
+        return tuple(rec) == tuple(ref_mtime_token(path))
+    except Exception:  # noqa: BLE001
+        return False
+
+
+def _check_record(ctx, env, path, when, disc, saved=True, changed=False, matched_before=True):
     if env.state is None:
         return
-    if not saved and changed:
-        # the call created / replaced / deleted something under the path: the record it leaves must
-        # describe the result, so it has to save one
-        ctx.violate("link-record-not-saved", f"{when}:{disc}", "the checkout changed the workspace and saved no link record")
+    if not saved and changed and not matched_before:
+        # the record was already out of date before this call (user changes since it was saved): C05's business
         return
-    if not saved:
+    if not saved and changed:
+        # the call created / replaced / deleted something under the path and saved no record: the record
+        # that is there must still describe the result (it does when only something that is not part of
+        # the token went away, e.g. a dangling link)
+        when = when + ":not-saved"
+    elif not saved:
         # this call had nothing to do and saved no record: an older record may
         # legitimately predate later user changes (C05's business, not C10's)
         return
